@@ -158,17 +158,20 @@ def run_mapping(config, trace_dir=None):
         instrument.install(trace_dir)
     res = {'ok': True, 'error': None}
     buf = io.StringIO()
-    try:
-        with contextlib.redirect_stdout(buf), contextlib.redirect_stderr(buf):
+    import gc
+    with contextlib.redirect_stdout(buf), contextlib.redirect_stderr(buf):
+        try:
             real(config, output_path=config['extended_result_path'], log_path=config['log_path'],
                  hdf5_output_path=config['hdf5_result_path'])
-    except Exception as e:
-        res['ok'] = False
-        res['error'] = f'{type(e).__name__}: {e}'
-        res['traceback'] = traceback.format_exc()
-    finally:
-        if trace_dir is not None:
-            instrument.uninstall()
+        except Exception as e:
+            res['ok'] = False
+            res['error'] = f'{type(e).__name__}: {e}'
+            res['traceback'] = traceback.format_exc()
+        finally:
+            if trace_dir is not None:
+                instrument.uninstall()
+        # destructors (FileTracker.__del__) print; let them run while output is captured
+        gc.collect()
     res['stdout'] = buf.getvalue()[-2000:]
     p = pathlib.Path(config['extended_result_path'])
     res['output'] = json.load(open(p)) if p.exists() else None
